@@ -9,6 +9,7 @@
 """
 Python equivalents of Excel operators.
 """
+import numpy as np
 import schedula as sh
 import functools
 import collections
@@ -51,7 +52,9 @@ OPERATORS['U+'] = wrap_ufunc(
 
 
 def _empty_like(v):
-    return '' if isinstance(v, str) else False if isinstance(v, bool) else 0
+    if isinstance(v, str):
+        return ''
+    return False if isinstance(v, (bool, np.bool_)) else 0
 
 
 def _logic_key(v):
